@@ -249,6 +249,13 @@ class Session:
             os.makedirs(self.twin[l])
             self.deliver(l, versions[0])
         self.refs = self._references()
+        # the application's logging configuration must not matter
+        import logging
+
+        self._loglevels = (logging.getLogger("ceos_alos2").level, logging.getLogger().level)
+        if seed % 3 == 0:
+            logging.getLogger("ceos_alos2").setLevel(logging.DEBUG)
+            logging.getLogger().setLevel(logging.DEBUG)
         self.trees = {}
         self.arrays = {}  # (slot, image) -> [(array, expected copy or None)]
         self.docs = {}
@@ -305,8 +312,14 @@ class Session:
                 return open(cand, "rb").read()
         return None
 
+    def local_state(self, l, m):
+        p = self.local_path(l, m)
+        if any(os.path.isdir(c) for c in (p, p.replace(self.cache_root, self.cache_root + ".hidden", 1))):
+            return "blocked"
+        return classify_doc(self.read_local(l, m))
+
     def cells(self):
-        return {"local": {l: {m: classify_doc(self.read_local(l, m)) for m in self.names} for l in self.place},
+        return {"local": {l: {m: self.local_state(l, m) for m in self.names} for l in self.place},
                 "adjacent": {l: {m: classify_doc(self.place[l].get(self.names[m] + ".index")) for m in self.names} for l in self.place}}
 
     def complete_doc(self, l, m):
@@ -356,11 +369,13 @@ class Session:
             obs["outcome"] = outcome
             evs = tracefs.take_log()
             want = last["outcome"]
+            tolerated = False
             if want == "tree" and outcome != "tree":
                 if last["judged"]:
                     find("spurious_error", f"open raised {obs['error']} although every file it needs is intact")
             elif want != "tree" and outcome == "tree" and last.get("cause") == "cachedir":
                 obs["drift"].append("the unusable user cache directory was tolerated (open returned a tree)")
+                tolerated = True
             elif want != "tree" and outcome == "tree":
                 find("not_failstop", f"open returned a tree although it should fail ({want}): {self.damage_text(l)}")
             elif want == "oserror" and outcome == "error":
@@ -375,7 +390,7 @@ class Session:
                     fp = None
                     if last["judged"] and want == "tree":
                         find("unloadable", f"the returned tree cannot be loaded / projected: {type(e).__name__}: {str(e)[:200]}")
-                if fp is not None and want == "tree" and last["judged"]:
+                if fp is not None and (want == "tree" or tolerated) and last["judged"]:
                     ref = patch_rpc(self.refs[(l, last["ver"])], rpc)
                     for cat, msgs in categorise(ref, fp).items():
                         for msg in msgs:
@@ -451,7 +466,20 @@ class Session:
             if t in self.trees:
                 tree, l, ver, cver = self.trees[t]
                 try:
-                    self.trees[t2] = (pickle.loads(pickle.dumps(tree)), l, ver, cver)
+                    route = self.rng.randrange(3)
+                    cp = pickle.loads(pickle.dumps(tree)) if route == 0 else (copy.deepcopy(tree) if route == 1 else tree.copy(deep=True))
+                    self.trees[t2] = (cp, l, ver, cver)
+                    try:  # a copy is a tree like any other: declared dtypes, sizes and reprs work
+                        import numpy as np
+
+                        for g in self.groups.values():
+                            v = cp[f"imagery/{g}/data"]
+                            if not isinstance(v.dtype, np.dtype):
+                                find("types", f"copy ({('pickle', 'deepcopy', 'tree.copy')[route]}): /imagery/{g}/data declares dtype {v.dtype!r} ({type(v.dtype).__name__})")
+                            _ = cp[f"imagery/{g}"].to_dataset().nbytes
+                        assert isinstance(repr(cp), str)
+                    except BaseException as e:  # noqa: B902
+                        find("types", f"copy ({('pickle', 'deepcopy', 'tree.copy')[route]}): repr / nbytes failed: {type(e).__name__}: {str(e)[:160]}")
                     for k in [k for k in self.arrays if k[0] == t2]:
                         del self.arrays[k]
                 except BaseException as e:  # noqa: B902
@@ -505,8 +533,15 @@ class Session:
         elif op == "restore":
             self.deliver(last["loc"], self.cur[last["loc"]])
             self.damaged[last["loc"]] = {}
+        elif op == "block":
+            p = self.local_path(last["loc"], last["img"])
+            if os.path.isfile(p):
+                os.remove(p)
+            os.makedirs(p, exist_ok=True)
         elif op in ("delete", "tear"):
             l, m = last["loc"], last["img"]
+            if last["cell"] == "local" and os.path.isdir(self.local_path(l, m)):
+                shutil.rmtree(self.local_path(l, m))
             data = None
             if op == "tear":
                 doc = self.complete_doc(l, m)
@@ -560,8 +595,8 @@ class Session:
                     obs["drift"].append(f"index files written for {sorted(wrote)}, spec expects {sorted(last['written'])}")
                 if last["cc"] and last["outcome"] == "tree" and obs.get("outcome") == "tree":
                     for m in self.names:
-                        if last["src"][m] == "parse" and classify_doc(self.read_local(last["loc"], m)) != "full":
-                            find("not_repaired", f"open(create_cache=True) succeeded but the index of image {m} is {classify_doc(self.read_local(last['loc'], m))}")
+                        if last["src"][m] == "parse" and self.local_state(last["loc"], m) != "full":
+                            find("not_repaired", f"open(create_cache=True) succeeded but the index of image {m} is {self.local_state(last['loc'], m)}")
             elif op == "cli":
                 if last["target"] == "adjacent" and cdelta:
                     find("cache_unasked", f"the CLI (adjacent target) changed the user cache directory: {cdelta}")
@@ -611,6 +646,10 @@ class Session:
         return (rows, None), rows, allc
 
     def close(self):
+        import logging
+
+        logging.getLogger("ceos_alos2").setLevel(self._loglevels[0])
+        logging.getLogger().setLevel(self._loglevels[1])
         self.unbreak()
         for pl in self.place.values():
             pl.close()
